@@ -146,7 +146,11 @@ auto_decoder_memconfig(void *coder_ptr, uint64_t *memusage,
 
 	lzma_ret ret;
 
-	if (coder->next.memconfig != NULL) {
+	// If this coder has been reinitialized, coder->next may still hold
+	// the decoder that was used for the previous file. It must not be
+	// consulted until the format of the new input has been detected:
+	// its limit and memory usage belong to the previous use.
+	if (coder->sequence != SEQ_INIT && coder->next.memconfig != NULL) {
 		ret = coder->next.memconfig(coder->next.coder,
 				memusage, old_memlimit, new_memlimit);
 		assert(*old_memlimit == coder->memlimit);
